@@ -103,9 +103,7 @@ def rand_series(rng, n):
         x = np.cumsum(rng.integers(-1, 2, size=n)).astype(float) * rng.uniform(0.1, 10)
     else:                # wide dynamic range but differences within [1e-100, 1e100]
         x = rng.standard_normal(n) * 10.0 ** rng.uniform(-30, 30)
-    if np.all(x == x[0]):
-        x[-1] = x[0] + 1.0
-    return x
+    return gen.not_constant(x)
 
 
 def build_traces(path, tier, seed):
@@ -127,8 +125,7 @@ def build_traces(path, tier, seed):
             big = 2.0e5 if dt_ is np.int32 else (120.0 if dt_ is np.int16 else 1.0)
             xi = np.round(x / (np.max(np.abs(x)) + 1e-300) * big) if dt_ is not np.float32 else x
             arg = np.asarray(xi, dtype=dt_)
-            if np.all(arg == arg[0]):
-                arg[-1] = arg[0] + 1
+            arg = gen.not_constant(arg)
             x = np.asarray(arg, dtype=float)
         allp, mx, mn, co, cp = impl(arg)
         if rng.integers(5) == 0 and n >= 4 and isinstance(arg, (np.ndarray, list)):
@@ -141,8 +138,7 @@ def build_traces(path, tier, seed):
             else:
                 arg[k_:] = arg[k_:][::-1].copy()
                 arg[k_] = arg[k_] + (abs(float(arg[k_])) + 1) * (3 if arg.dtype.kind == "f" else 1)
-            if np.all(np.asarray(arg) == np.asarray(arg)[0]):
-                arg[-1] = arg[0] + 1
+            arg = gen.not_constant(arg)
             mx = pc2_.get_peak_array_indices(arg, ptype='max')
             mn = pc2_.get_peak_array_indices(arg, ptype='min')
             allp, _, _, co, cp = impl(arg)
